@@ -11,7 +11,7 @@ from .core import Suite, cN, cbool, clist, copt, ctuple
 from .terms import GRAPH_POOL, TERM_POOL, rdflib, term, term_id
 
 warnings.filterwarnings("ignore", category=DeprecationWarning)
-from rdflib import BNode, ConjunctiveGraph, Graph, Literal, URIRef, Variable  # noqa: E402
+from rdflib import BNode, ConjunctiveGraph, Dataset, Graph, Literal, URIRef, Variable  # noqa: E402
 from rdflib.paths import (AlternativePath, InvPath, MulPath, NegatedPath,  # noqa: E402
                           SequencePath)
 
@@ -649,4 +649,212 @@ def contains_inv_member(ast):
     return False
 
 
-SUITES = [C11(), C11H()]
+
+# ---------------------------------------------------------------------------
+# A path pattern asked of ONE graph of a ConjunctiveGraph / Dataset whose graphs hold DIFFERENT triples.
+# case = {"kind": "cg"|"ds_union"|"ds_plain", "layout": [[gid, [[s,p,o]..]]..]  (gid 0 = default graph),
+#         "target": gid (0 = no graph requested / the default graph), "route": str, "path": ast, "s": .., "o": ..}
+# The Coq case carries the triple list the answer has to be computed over: the target graph's triples; for target 0 the
+# union of all graphs (ConjunctiveGraph, Dataset(default_union=True)) or the default graph's triples (plain Dataset).
+G_ROUTES = ["direct", "ctx_graph", "ctx_name", "quad", "contains", "sparql_graph"]
+
+
+def effective(case):
+    lay = dict((g, ts) for g, ts in case["layout"])
+    if case["target"] != 0:
+        return lay.get(case["target"], [])
+    if case["kind"] == "ds_plain":
+        return lay.get(0, [])
+    out = []
+    for _, ts in case["layout"]:
+        for t in ts:
+            if t not in out:
+                out.append(t)
+    return out
+
+
+class C11G(Suite):
+    name = "path_in_graph"
+    imports = "From RV Require Import Paths.Model."
+    case_ty = "case"
+    obs_ty = "obs"
+    kf = "kf"
+    kf_ids = {2: "F4c", 4: "F4e"}
+    corr = ("ConjunctiveGraph.triples / Dataset.triples with a path predicate and a requested graph (context= Graph object or "
+            "name, quad pattern, `in`), Graph.triples of a context graph, SPARQL GRAPH <g> { s path o }")
+    quick_n = 700
+    thorough_n = 12000
+    timeout_s = 10.0
+
+    def gen(self, rng, i):
+        kind = rng.choice(["cg", "ds_union", "ds_plain", "ds_plain"])
+        k = rng.choice([2, 3, 3, 4])
+        vocab = rng.sample(NODE_VOCAB, k)
+        preds = list(PREDS)
+        subj_ok = [v for v in vocab if v not in LITS] or vocab
+        pool = []
+        for _ in range(rng.choice([2, 3, 4, 5, 6])):
+            s = rng.choice(subj_ok)
+            t = [s, rng.choice(preds), s if rng.random() < 0.08 else rng.choice(vocab)]
+            if pool and rng.random() < 0.4:       # continue a chain started by an earlier triple
+                u = rng.choice(pool)
+                t = [u[2], rng.choice(preds), rng.choice(vocab)] if u[2] not in LITS else t
+            if t not in pool:
+                pool.append(t)
+        gids = rng.sample([1, 2, 5, 4], rng.choice([2, 2, 3]))
+        slots = gids + ([0] if rng.random() < 0.6 else [])
+        lay = {g: [] for g in slots}
+        for t in pool:                            # every triple in one graph, some shared by two
+            g = rng.choice(slots)
+            lay[g].append(t)
+            if rng.random() < 0.2:
+                h = rng.choice(slots)
+                if t not in lay[h]:
+                    lay[h].append(t)
+        r = rng.random()
+        target = 0 if r < 0.2 else rng.choice(gids)
+        if target == 0:
+            route = rng.choice(["none", "none", "ctx_graph", "contains"])
+        else:
+            route = rng.choice(G_ROUTES)
+            if route == "sparql_graph" and (target == 4 or kind == "cg"):
+                route = "quad"                    # blank-node graph names cannot be written; GRAPH needs a Dataset-like store
+        nodes = {x for t in pool for x in (t[0], t[2])}
+
+        def end():
+            q = rng.random()
+            if q < 0.5:
+                return None
+            return rng.choice(sorted(nodes)) if (q < 0.92 and nodes) else rng.choice([9, 11])
+
+        while True:
+            path = gen_path(rng, rng.choice([2, 2, 3, 3]), preds, singles=False)
+            if not contains_inv_member(path):
+                break
+        return {"kind": kind, "layout": [[g, lay[g]] for g in slots], "target": target, "route": route,
+                "path": path, "s": end(), "o": end()}
+
+    # ------------------------------------------------------------ implementation
+    def run_impl(self, case):
+        try:
+            return ["ok", sorted(self._pairs(case))]
+        except RecursionError:
+            return ["timeout"]
+        except Exception as e:  # noqa: BLE001
+            return ["raised", type(e).__name__ + ": " + str(e)[:80]]
+
+    def on_timeout(self, case):
+        return ["timeout"]
+
+    def _pairs(self, case):
+        kind = case["kind"]
+        cg = ConjunctiveGraph() if kind == "cg" else Dataset(default_union=(kind == "ds_union"))
+        for gid, ts in case["layout"]:
+            if gid != 0 and kind != "cg":
+                cg.graph(GRAPH_POOL[gid - 1])     # a named graph of the dataset even when it holds no triple (GRAPH <g> {..})
+            for t in ts:
+                tt = tuple(term(x) for x in t)
+                if gid == 0:
+                    cg.add(tt)
+                else:
+                    cg.get_context(GRAPH_POOL[gid - 1]).add(tt)
+        s = None if case["s"] is None else term(case["s"])
+        o = None if case["o"] is None else term(case["o"])
+        route, target = case["route"], case["target"]
+        name = None if target == 0 else GRAPH_POOL[target - 1]
+        ctx = cg.default_context if target == 0 else cg.get_context(name)
+        if route == "sparql_graph":
+            q = "SELECT * WHERE { GRAPH %s { %s %s %s } }" % (
+                name.n3(), "?s" if s is None or not const_ok(s) else s.n3(), sparql_path(case["path"]),
+                "?o" if o is None or not const_ok(o) else o.n3())
+            bind = {}
+            if s is not None and not const_ok(s):
+                bind["s"] = s
+            if o is not None and not const_ok(o):
+                bind["o"] = o
+            res = cg.query(q, initBindings=bind)
+            return [[term_id(b.get(Variable("s"), s)), term_id(b.get(Variable("o"), o))] for b in res.bindings]
+        p = build(case["path"])
+        if ast_of(p) != case["path"]:
+            raise AssertionError("harness: path object differs from the case's AST")
+        if route == "none":
+            it = cg.triples((s, p, o))
+        elif route == "direct":
+            it = ctx.triples((s, p, o))
+        elif route == "ctx_graph":
+            it = cg.triples((s, p, o), context=ctx)
+        elif route == "ctx_name":
+            it = cg.triples((s, p, o), context=name)
+        else:
+            it = cg.triples((s, p, o, ctx))
+        out = [[term_id(x), term_id(y)] for x, _, y in it]
+        if route == "contains":
+            # `in` only tells whether there is an answer: it has to agree with the quad pattern's answer, which is compared
+            if ((s, p, o, ctx) in cg) != bool(out):
+                raise AssertionError("(s, path, o, g) in cg disagrees with triples((s, path, o, g))")
+        return out
+
+    # ------------------------------------------------------------ Coq text
+    def coq_case(self, case):
+        flat = {"g": effective(case), "path": case["path"], "s": case["s"], "o": case["o"],
+                "via": "sparql" if case["route"] == "sparql_graph" else "triples"}
+        return _ONE.coq_case(flat)
+
+    def coq_obs(self, obs):
+        return _ONE.coq_obs(obs)
+
+    def nontrivial(self, case, obs):
+        allt = [t for _, ts in case["layout"] for t in ts]
+        return obs[0] == "ok" and len(effective(case)) < len({tuple(t) for t in allt})
+
+    def features(self, case, obs):
+        f = {"kind_" + case["kind"]: 1, "route_" + case["route"]: 1,
+             "target_" + ("default_or_none" if case["target"] == 0 else "named"): 1,
+             "graphs_%d" % len(case["layout"]): 1}
+        eff = effective(case)
+        other = [t for _, ts in case["layout"] for t in ts if t not in eff]
+        if other:
+            f["other_graphs_have_more_triples"] = 1
+            # a triple elsewhere that continues from a node of the requested graph: the situation the restriction matters in
+            en = {x for t in eff for x in (t[0], t[2])}
+            if any(t[0] in en or t[2] in en for t in other):
+                f["other_graphs_continue_the_requested_graph"] = 1
+        if obs[0] == "ok":
+            f["answer_nonempty"] = int(bool(obs[1]))
+        return f
+
+    def shrink(self, case):
+        lay = case["layout"]
+        for i, (g, ts) in enumerate(lay):
+            for j in range(len(ts)):
+                yield dict(case, layout=lay[:i] + [[g, ts[:j] + ts[j + 1:]]] + lay[i + 1:])
+        for sp in subpaths(case["path"]):
+            yield dict(case, path=sp)
+        p = case["path"]
+        if p[0] in ("seq", "alt") and len(p[1]) > 2:
+            for i in range(len(p[1])):
+                yield dict(case, path=[p[0], p[1][:i] + p[1][i + 1:]])
+        if p[0] in ("inv", "mul"):
+            for sp in subpaths(p[1]):
+                yield dict(case, path=[p[0], sp] + p[2:])
+        for e in ("s", "o"):
+            if case[e] is not None:
+                yield dict(case, **{e: None})
+
+    def sweep(self):
+        """g1 = {a p b}, g2 = {b p c, b q 0}, default = {c p a}: every route x kind x target x small path family x ends"""
+        lay = [[1, [[1, 3, 2]]], [2, [[2, 3, 12], [2, 4, 6]]], [0, [[12, 3, 1]]]]
+        P, Q = ["iri", 3], ["iri", 4]
+        paths = [["mul", P, "+"], ["mul", P, "*"], ["mul", P, "?"], ["seq", [P, Q]], ["seq", [P, P]], ["inv", P],
+                 ["alt", [P, Q]], ["neg", [["iri", 4]]], ["seq", [["mul", P, "*"], Q]], ["mul", ["inv", P], "+"]]
+        for kind in ("cg", "ds_union", "ds_plain"):
+            for target in (0, 1, 2):
+                routes = ["none", "ctx_graph", "contains"] if target == 0 else [
+                    r for r in G_ROUTES if not (r == "sparql_graph" and kind == "cg")]
+                for route in routes:
+                    for p in paths:
+                        for s, o in ((None, None), (1, None), (None, 12), (2, 6), (1, 12)):
+                            yield {"kind": kind, "layout": lay, "target": target, "route": route, "path": p, "s": s, "o": o}
+
+
+SUITES = [C11(), C11H(), C11G()]
